@@ -237,7 +237,7 @@ def main(tier):
                 real = set(r['rules'])
                 if model != real:
                     bad = None
-                    for s, rules in zip(sp.sentences, a['rules']):
+                    for s, rules in zip(sp.owners(), a['rules']):
                         if any(model_rule(x) not in real for x in rules):
                             bad = s
                             break
